@@ -52,6 +52,10 @@ CHECKS = {
    technique="stateless model checking of the implementation: deviation-bounded exhaustive enumeration of thread interleavings under a controlled scheduler with virtual time",
    text="For concurrency limits 2 and 3 and limit+1 (thorough limit+2) microtasks submitted concurrently from as many threads - every multiset of {medium, low} priority x {Run, Start, Signal} variant, error and panic outcomes, an optional high-priority task, done() called three times (twice concurrently) - every schedule of the source-instrumented modules package with at most 2 (thorough 3) deviations from each of two default schedulers is executed from a freshly reset world. Checked: the number of medium/low bodies between begin and end never exceeds the limit while the virtual clock reads 0 and no high-priority body runs; every body ran exactly once; blocking variants return the body's error (IsPanic for panics); afterwards the global and per-module counts are zero, further microtasks are admitted without the virtual clock moving, and Shutdown is not held up; no deadlock, no uncontained panic.",
    note="Trusted: the scheduler's model of Go synchronisation (shim/, selftests), sequential consistency, data-race freedom outside instrumented operations. Operations inside package log are switch points only when they block. More than limit+2 microtasks, limits above 3 and maximum delays that actually expire are not covered."),
+ "C06": dict(engine="S+Q", category="model_checking", design_ref="DESIGN.md §2, §6 C06",
+   technique="stateless model checking of the implementation (deviation-bounded enumeration of interleavings under a controlled scheduler) plus exhaustive enumeration of the (execution kind x panic value) table",
+   text="The complete table of 15 kinds of managed execution (prep/start/stop routines, RunWorker, StartWorker, StartServiceWorker, task via Queue and via Schedule, Run/Start x high/medium/low microtasks, event hook) x 7 panic values (nil, error, string, index out of range, nil-map write, struct, typed-nil error whose Error() panics) is executed on the source-instrumented modules package under the controlled scheduler; in addition, for every kind, the panicking item runs among 1-2 healthy items (worker, microtask, task) and a second module, with every schedule within 2 (thorough 3) deviations, followed by stopping the module. Checked: no panic leaves a managed thread; blocking variants return an error with IsPanic, the value and a stack trace; the same error arrives on the error reporting channel; Start/Shutdown return non-nil when a lifecycle routine panicked (also when another module reports after it); module and global counters return to their previous values; the service worker is re-entered after the virtual back-off; the panicked task runs again; Shutdown stays prompt and all healthy items end.",
+   note="Trusted: the scheduler's model of Go synchronisation (shim/, selftests), sequential consistency, data-race freedom outside instrumented operations. The HTTP API handler clause is covered by the sequential api part (h/c06api) when present in this tree."),
 }
 
 NOT_BUILT_REASON = "check not built yet (work in progress; planned, see DESIGN.md section 6)"
